@@ -12,7 +12,7 @@ import subprocess
 import sys
 import tempfile
 
-VERIF = '/verif'
+VERIF = os.path.dirname(os.path.dirname(os.path.abspath(__file__)))
 corpus = json.load(open(os.path.join(VERIF, 'selftest', 'corpus.json')))
 only = sys.argv[1:]
 scratch_root = tempfile.mkdtemp(prefix='gowp-selftest-')
